@@ -177,7 +177,7 @@ def loader_sections(ctx):
     return secs, facts, loopvar, fixed
 
 
-def r1_tag_chain(ctx, rule):
+def r1_tag_chain(ctx, rule, scope='all'):
     labels = {}
     for det, rel in DET_MODULE.items():
         for letter, info in detector_labels(ctx, rel).items():
@@ -266,6 +266,10 @@ def r1_tag_chain(ctx, rule):
                                                   or c[0] == 'skip_case')]
                 if bad_c:
                     prob.append('section %s is loaded only under %s' % (sec, bad_c))
+        if scope == 'disk':
+            # only the links that live on disk: folder <-> config section <-> loader (not detector labels / parse counters)
+            prob = [p_ for p_ in prob if not (p_.startswith('no detector') or p_.startswith('values of') or p_.startswith('label ')
+                                              or 'values are counted in' in p_ or p_.startswith('counter '))]
         row['problems'] = prob
         table.append(row)
         if prob:
@@ -427,7 +431,7 @@ def _renorm(ctx, rule):
 
 def rules(tier):
     return [('C03.R1', r1_tag_chain), ('C03.R2', r2_mask_producer), ('C03.R3', r3_mask_insertion),
-            ('C03.R4', c04.r3_mask_slices), ('C03.R5', c04.r2_structural_recursion), ('C03.R6', c04.r1_dispatch),
+            ('C03.R4', lambda c, r: c04.r3_mask_slices(c, r, strict_char_map=False)), ('C03.R5', c04.r2_structural_recursion), ('C03.R6', c04.r1_dispatch),
             ('C03.R7', c01.r8_uniform_scale), ('C03.R8', _renorm)]
 
 
